@@ -122,7 +122,8 @@ class PromiseType final : public PromiseTypeBase<V, E, Lazy, Shared> {
   }
 
   YACLIB_INLINE void Impl(InlineCore& caller) noexcept {
-    this->_executor = std::move(DownCast<BaseCore>(caller)._executor);
+    // copy, not move: IntrusivePtr move assignment swaps, which handed the coroutine's previous executor to the caller
+    this->_executor = DownCast<BaseCore>(caller)._executor;
     YACLIB_ASSERT(this->_executor != nullptr);
   }
   [[nodiscard]] InlineCore* Here(InlineCore& caller) noexcept final {
